@@ -7,6 +7,10 @@ from ..runner import Outcome, HarnessError
 from .. import util
 from ..util import F, G, WM
 
+# glob mode: the doubled separator of K28 only shows where the number of separators matters, i.e. inside a UNC-like prefix
+# (the pattern starts with a separator and contains an escaped slash)
+LEADING_ESC_SLASH = re.compile(r'^(?:/|\\\\|\\/)')
+
 PROPERTY = 'C20'
 ALPHA = ['\\', 'x', '4', '1', 'u', 'N', '{', '}', 'a', '7', '/', '*', '0']
 RULE = ('case = (pattern text, str|bytes, fnmatch|glob|WcMatch, FORCEWIN on/off); texts: every string up to length 5 (6 thorough) '
@@ -196,7 +200,7 @@ def check(p, is_bytes, mode, win, out, stream, extra=''):
                         out.evaluations += 1
                         if bool(a) != bool(b):
                             c = dict(case, decoded=want, name=nm, impl=bool(a), want=bool(b), problem='RAWCHARS differs from decoded pattern')
-                            if 'K28' in ARMED and win and mode == 'fn' and '\\/' in want:
+                            if 'K28' in ARMED and win and '\\/' in want and (mode == 'fn' or LEADING_ESC_SLASH.match(want)):
                                 # under Windows rules in fnmatch mode a written `\/` is normalised to TWO escaped backslashes
                                 out.known_hit('K28', c)
                                 return
